@@ -1,4 +1,4 @@
-import AaVerif.Aa.Meaning
+import AaVerif.Aa.Idem
 import AaVerif.Generated.AaTables
 /-!
 # C10 — merging rules never changes what the rules grant or deny
@@ -45,6 +45,20 @@ theorem C10_dup_only_identical_partial {r o : Rule} (hr : Dom10 T.stringAlphabet
     (ho : Dom10 T.stringAlphabet o) (hk : r.kind = o.kind) (hc : compareRule T r o = 0) :
     r.audit = o.audit ∧ r.accessType = o.accessType ∧ r.flds = o.flds :=
   compare_zero_identical T alphabet_lower hr ho hk hc
+
+/-- **Merging an already merged list changes nothing** (partial: lists over `Dom10` without signal
+rules). Any length, any order, `nil` entries included. Signal rules are outside for a reason: their
+merge has two keys, and the witness `C10_signal_not_idempotent` below shows a list that needs two
+passes (`K_signalIdempotence`). -/
+theorem C10_idempotent_partial (l : List (Option Rule))
+    (hdom : ∀ o ∈ l, DomO (DomI T.stringAlphabet) o) :
+    mergeRules T (mergeRules T l) = mergeRules T l :=
+  mergeRules_idempotent T alphabet_lower l hdom
+
+/-- what the proof rests on: after a merge, no two entries have the same kind, qualifier and subject -/
+theorem C10_merged_keys_distinct (l : List (Option Rule))
+    (hdom : ∀ o ∈ l, DomO (DomI T.stringAlphabet) o) : ((mergeRules T l).map kO).Nodup :=
+  (mergeAux_nodup T alphabet_lower l.length l (Nat.le_refl _) hdom).1
 
 /-- the per-rule contracts themselves, for reference -/
 theorem C10_merge_contract : MergeContract T den (Dom10 T.stringAlphabet) := mergeContract T alphabet_lower
